@@ -3,6 +3,7 @@ from registry_common import COMMON_ASSUME
 ENTRY = dict(
     title="close() always terminates and leaves nothing running",
     design_ref="DESIGN.md section 6 / C12",
+    prop_modules=["C12", "C12Clean"],
     technique="Lean 4 connection machine (C11's, with the write queue's unfinished count, device / sub-device task sets, close and shutdown) + correspondence: close() at every position of generated histories on the real Connection under a virtual-time loop, quiescent-deadlock detection",
     level_text=(
         "Proof (partial, see clauses): `close_partial` - from every reachable state at rest that drains (write queue empty, or connected to a "
